@@ -379,7 +379,7 @@ impl JitCompiler {
     fn emit_muldivmod(
         &mut self,
         mem: &mut JitMemory,
-        pc: u16,
+        pc: usize,
         opc: u8,
         src: u8,
         dst: u8,
@@ -670,7 +670,7 @@ impl JitCompiler {
                 | ebpf::DIV32_REG
                 | ebpf::MOD32_IMM
                 | ebpf::MOD32_REG =>
-                    self.emit_muldivmod(mem, insn_ptr as u16, insn.opc, src, dst, insn.imm),
+                    self.emit_muldivmod(mem, insn_ptr, insn.opc, src, dst, insn.imm),
                 ebpf::OR32_IMM   => self.emit_alu32_imm32(mem, 0x81, 1, dst, insn.imm),
                 ebpf::OR32_REG   => self.emit_alu32(mem, 0x09, src, dst),
                 ebpf::AND32_IMM  => self.emit_alu32_imm32(mem, 0x81, 4, dst, insn.imm),
@@ -732,7 +732,7 @@ impl JitCompiler {
                 ebpf::MUL64_IMM | ebpf::MUL64_REG |
                     ebpf::DIV64_IMM | ebpf::DIV64_REG |
                     ebpf::MOD64_IMM | ebpf::MOD64_REG =>
-                    self.emit_muldivmod(mem, insn_ptr as u16, insn.opc, src, dst, insn.imm),
+                    self.emit_muldivmod(mem, insn_ptr, insn.opc, src, dst, insn.imm),
                 ebpf::OR64_IMM   => self.emit_alu64_imm32(mem, 0x81, 1, dst, insn.imm),
                 ebpf::OR64_REG   => self.emit_alu64(mem, 0x09, src, dst),
                 ebpf::AND64_IMM  => self.emit_alu64_imm32(mem, 0x81, 4, dst, insn.imm),
